@@ -304,3 +304,20 @@ PROPS['C16']['assumptions'] = [x for x in PROPS['C16']['assumptions'] if 'neares
 PROPS['C16']['explanation'] += (' Cube packages: Models._read_version_2 with a wavelength instead of a filter name takes, through MonochromaticFluxes.from_sed_cube (flux[m,a] = val[m,a,k], error from unc, '
                                 'names/apertures of the cube), the slice at an index k such that no tabulated wavelength is closer to the requested one, and reports the requested wavelength for the band.')
 PROPS['C07']['e1'] = PROPS['C07']['e1'] + [FSC]
+
+
+# ---- the three text writers of C09 under contract -----------------------------------------------------
+WRS = ['sedfitter.write_parameters.write_parameters', 'sedfitter.write_parameter_ranges.write_parameter_ranges', 'sedfitter.extract_parameters.extract_parameters']
+PROPS['C09']['e1'] = [FI + 'filter_table'] + WRS + [FI + 'keep', SRC + 'n_data']
+PROPS['C09']['assumptions'] = COMMON + [T_LOOP, T_EVENT, D_ARGSORT, D_TABLE, D_PICKLE,
+                                        'assumed: load_parameter_table (FITS table I/O); FitInfoFile through its own contracts; dep: astropy Table.sort(key) re-orders every column by np.argsort(key column); '
+                                        'np.nanmin/np.nanmax = min/max (A-REAL: no NaN)',
+                                        'the printed TEXT (number formatting, column widths, headers) is outside E1: what is proved is WHICH value is formatted WHERE; the text is parsed back by the bounded run',
+                                        'that a parameter table holding every fitted model exactly once is never refused (totality) and the parameter plots are decided by the bounded run',
+                                        'the numeric domain conditions of keep / filter_table / n_data on the records are assumptions on the data']
+PROPS['C09']['explanation'] = ('E1: FitInfo.filter_table (any row order of the parameter table): on normal return row i is an ENTIRE input row whose MODEL_NAME is the name of fit i, additional parameters '
+                               'attached by stripped name, otherwise an exception. write_parameters / extract_parameters: for an arbitrary record (cut by the given selector first) and an arbitrary selected fit i, '
+                               'the line of fit i shows its rank, name, chi^2, A_V, scale and then entry i of every parameter column of the table filter_table returned for THAT record; one line per selected fit; '
+                               'n_data and n_fits of the record in its header. write_parameter_ranges: for chi^2, A_V, scale and every parameter column the triple (minimum over the selected fits, value of the '
+                               'rank-1 fit, maximum); placeholders only when nothing is selected. All three hand filter_table the package table with names stripped and rows sorted by name (whole rows moved '
+                               'together). E2: the text of the three writers parsed back, exhaustive row permutations, sources as file/object/list.')
